@@ -227,7 +227,7 @@ RULE = ("distinct (set of TAL/METAL commands used in the template, maximum nesti
 
 
 def main() -> int:
-    chk = Check("C17", "exploration+structural")
+    chk = Check("C17", "exploration")
     logging.disable(logging.CRITICAL)
     mon = Monitors(chk)
     if chk.replay_case:
